@@ -49,7 +49,14 @@ def native_python(t0, t1, mx):
     impl = native.RecordingImpl(mx, control_size=1)
     mf = runtime.ManagedFilter(impl, t0, (), ())
     before = (mf.current_time, mf.state, mf.covariance)
-    out = mf._process_model(t1, "u")
+    try:
+        out = mf._process_model(t1, "u")
+    except (TypeError, AttributeError):
+        # the private helper was refactored: observe the same move through the public API (a reading-less tick moves to the
+        # output time and reports without storing)
+        impl.calls.clear()
+        mf.tick(t1, control="u")
+        out = (t1, None)
     steps = [c[1] for c in impl.calls]
     ok, why = stepping_ok(t0, t1, mx, steps)
     if ok and out[0] != t1:
@@ -114,6 +121,24 @@ def native_sweep(run, n):
             fails += 1
             sig = "backward" if t1 < t0 else ("forward" if t1 > t0 else "equal")
             run.findings.append(Finding("C10.py._process_model.native_sweep", sig, f"python _process_model {t0}->{t1} max {mx}: {why}", {"language": "python", "inputs": {"t0": t0, "t1": t1, "max_dt_sec": mx}, "native_steps": steps[:50], "oracle_verdict": why}, True))
+    # moves INSIDE ticks (to each reading's timestamp, then to the output time), over sequences of ticks
+    from checks import C11
+
+    rng2 = random.Random(run.seed + 23)
+    hist = max(20, n // 3)
+    for _ in range(hist):
+        t0, mx, cs, ticks = C11.random_history(rng2)
+        run.native_runs += 1
+        try:
+            ok, why, calls = C11.native_tick(t0, mx, cs, ticks)
+        except Exception as e:  # harness problems never become violations
+            run.notes.append(f"native tick history failed to run: {e!r}")
+            continue
+        if not ok and why.startswith("move to"):
+            fails += 1
+            run.findings.append(Finding("C10.py.tick_moves.native_sweep", "tick", f"python tick history {ticks} from t0={t0}, max {mx}: {why}", {"language": "python", "inputs": {"history": True, "t0": t0, "max_dt_sec": mx, "control_size": cs, "ticks": ticks}, "oracle_verdict": why}, True))
+            break
+    run.bounded.append({"what": "native CPython multi-tick histories with readings in any order: every move's process_model dt sequence judged by stepping_ok", "bound": f"{hist} random histories, seed {run.seed}", "failures": fails, "counted_as_proved": False})
     run.bounded.append({"what": "native CPython run of runtime.ManagedFilter._process_model with a recording wrapped filter, oracle stepping_ok", "bound": f"{min(n, len(grid))} (t0,t1,max_dt) triples, seed {run.seed}", "failures": fails, "counted_as_proved": False})
 
 
@@ -127,12 +152,17 @@ def check(run):
     except ImportError:
         run.notes.append("C++ side not built yet")
     need_sweep = run.tier == "thorough" or any(r.status != "ok" for r in run.reports) or run.undecided
-    if need_sweep:
-        native_sweep(run, 400 if run.tier == "thorough" else 120)
+    native_sweep(run, 400 if run.tier == "thorough" else (120 if need_sweep else 60))
 
 
 def replay_file(payload):
     inp = payload.get("inputs", {})
+    if payload.get("language") == "python" and inp.get("history"):
+        from checks import C11
+
+        ok, why, calls = C11.native_tick(inp["t0"], inp["max_dt_sec"], inp["control_size"], [tuple(t) for t in inp["ticks"]])
+        print(f"replay python tick history {inp['ticks']}: {why}")
+        return ok
     if payload.get("language") == "python":
         ok, why, steps = native_python(inp["t0"], inp["t1"], inp["max_dt_sec"])
         print(f"replay python _process_model {inp}: steps={steps[:20]} -> {why}")
